@@ -1,6 +1,7 @@
 package main
 
 import (
+	"golang.org/x/tools/go/ssa"
 	"strconv"
 	"flag"
 	"fmt"
@@ -28,6 +29,39 @@ func main() {
 		repo := fs.String("repo", "/repo", "repository")
 		fs.Parse(os.Args[2:])
 		os.Exit(cmdFn(*repo, fs.Args(), *verbose, *timeout))
+	case "loops":
+		ld, specs, err := loadRepo("/repo")
+		if err != nil {
+			fmt.Println(err)
+			os.Exit(2)
+		}
+		for _, name := range specs.Order {
+			fn := ld.funcs[name]
+			sp := specs.Lookup(name)
+			if fn == nil || sp.Trusted {
+				continue
+			}
+			e := newExec(ld, specs)
+			for _, li := range e.analyzeLoops(fn, sp) {
+				kind := "plain"
+				for _, in := range li.header.Instrs {
+					if phi, ok := in.(*ssa.Phi); ok && phi.Comment == "rangeindex" {
+						kind = "range-slice"
+					}
+				}
+				for blk := range li.body {
+					for _, in := range blk.Instrs {
+						if _, ok := in.(*ssa.Next); ok {
+							kind = "range-map/string"
+						}
+					}
+				}
+				dec := li.spec != nil && li.spec.Decreases != nil
+				unr := li.spec != nil && li.spec.Unroll > 0
+				fmt.Printf("%-55s loop%d %-16s decreases=%v unroll=%v autoBounds=%d\n", name, li.ordinal, kind, dec, unr, len(e.autoBounds(li, li.header)))
+			}
+		}
+		os.Exit(0)
 	case "stage2":
 		os.Exit(cmdStage2(os.Args[2:]))
 	case "list":
